@@ -94,3 +94,26 @@ package didsubject
 //@   call (*gorm.DB).Create #1 requires [next-version-is-the-successor] arg(0) == s.tx && arg(1) == any(&doc) && doc.Version == latest.Version + 1 && same(doc.DID, did)
 //@        && (ret(call (*gorm.DB).First #1).Error == nil || ret(call errors.Is #1) == true)
 //@   ensures [what-was-created-is-returned] isNilIface(result.1) ==> result.0 != nil && did(call (*gorm.DB).Create #1) && ret(call (*gorm.DB).Create #1).Error == nil
+
+// The rollback sweep: a change set (one transaction id) is judged committed only if EVERY change of it
+// is committed according to the manager of its own method; otherwise every document version of that
+// set is deleted; its change records are deleted in both cases; any error aborts the sweep's transaction.
+//@ func (orm.DIDChangeLog).Method
+//@   trusted
+//@   pure
+//@ func (*gorm.DB).InnerJoins
+//@   trusted
+//@   benign
+//@   ensures result != nil
+//@ func (*SqlManager).Rollback$1
+//@   prop C13
+// while the changes of a set are being examined, every one examined so far was committed (a later
+// 'committed' must not overwrite an earlier 'not committed')
+//@   loop @IsCommitted invariant committed == true
+//@   call (MethodManager).IsCommitted #1 requires [asked-of-the-changes-own-method] arg(0) == r.MethodManagers[change.Method()] && same(arg(2), change)
+//@   call (*gorm.DB).Delete #1 requires [versions-deleted-only-for-an-uncommitted-set] committed == false && typeOf(arg(1)) == *orm.DidDocument
+//@        && arg(0) == ret(call (*gorm.DB).Where #2) && arg(call (*gorm.DB).Where #2, 0) == tx && arg(call (*gorm.DB).Where #2, 1) == any("id = ?")
+//@        && len(arg(call (*gorm.DB).Where #2, 2)) == 1 && arg(call (*gorm.DB).Where #2, 2)[0] == any(change.DIDDocumentVersionID)
+//@   call (*gorm.DB).Delete #2 requires [records-deleted-after-the-set-was-judged] typeOf(arg(1)) == *orm.DIDChangeLog && arg(0) == ret(call (*gorm.DB).Where #3) && arg(call (*gorm.DB).Where #3, 0) == tx
+//@        && arg(call (*gorm.DB).Where #3, 1) == any("transaction_id = ?") && len(arg(call (*gorm.DB).Where #3, 2)) == 1 && arg(call (*gorm.DB).Where #3, 2)[0] == any(transactionID)
+//@   ensures [an-error-aborts-the-sweep] (did(call (MethodManager).IsCommitted #1) && !isNilIface(ret(call (MethodManager).IsCommitted #1).1)) ==> !isNilIface(result)
